@@ -35,6 +35,9 @@ type SeqPlan struct {
 	YieldEvery int    `json:"yield_every"` // Gosched after every n-th op (0 = never)
 	YieldPhase []int  `json:"yield_phase"` // per goroutine offset of the yield pattern
 	Procs      int    `json:"procs"`       // GOMAXPROCS for the run
+	// Random: the sequencer comes from NewRandomSequencer and is stepped by one goroutine until the next value is
+	// Start (zeros handed out on the way are subtracted from the RollOverCount values recorded afterwards)
+	Random bool `json:"random,omitempty"`
 }
 
 type SeqCase struct {
@@ -52,6 +55,19 @@ var (
 // runPlan executes the plan against a fresh fixed sequencer and records the history.
 func runPlan(p *SeqPlan) []HistOp {
 	seq := rtp.NewFixedSequencer(p.Start)
+	var base uint64
+	if p.Random {
+		seq = rtp.NewRandomSequencer()
+		// (bounded: a sequencer that never reaches the value leaves a history the checker refutes)
+		for v, k := seq.NextSequenceNumber(), 0; k < 1<<17; v, k = seq.NextSequenceNumber(), k+1 {
+			if v == 0 {
+				base++
+			}
+			if v == p.Start-1 {
+				break
+			}
+		}
+	}
 	var clock int64
 	hist := make([][]HistOp, p.Goroutines)
 	var wg sync.WaitGroup
@@ -72,7 +88,7 @@ func runPlan(p *SeqPlan) []HistOp {
 				if p.RollEvery > 0 && (i+g)%p.RollEvery == p.RollEvery-1 {
 					op.Kind = 1
 					op.Inv = atomic.AddInt64(&clock, 1)
-					op.Val = seq.RollOverCount()
+					op.Val = seq.RollOverCount() - base
 					op.Res = atomic.AddInt64(&clock, 1)
 				} else {
 					op.Inv = atomic.AddInt64(&clock, 1)
@@ -265,6 +281,9 @@ func checkC07Concurrent(r *run, c *SeqCase) (CaseInfo, error) {
 			ci.class(fmt.Sprintf("goroutines:%d", p.Goroutines))
 			ci.class(fmt.Sprintf("procs:%d", p.Procs))
 		}
+		if rep == 0 && p.Random {
+			ci.class("random-sequencer-stepped-to-the-start")
+		}
 		if rep == 0 && ov > 0 {
 			ci.class("overlapping-intervals")
 		}
@@ -382,6 +401,7 @@ func genWrapBurst(t *rapid.T) *SeqCase {
 		RollEvery:  rapid.SampledFrom([]int{2, 2, 3}).Draw(t, "rollevery"),
 		YieldEvery: rapid.SampledFrom([]int{0, 0, 1, 3}).Draw(t, "yieldevery"),
 		Procs:      rapid.SampledFrom([]int{2, 4, 16, 16}).Draw(t, "procs"),
+		Random:     rapid.IntRange(0, 2).Draw(t, "randomseq") == 1,
 	}
 	for i := 0; i < g; i++ {
 		p.YieldPhase = append(p.YieldPhase, rapid.IntRange(0, 7).Draw(t, "phase"))
@@ -402,6 +422,7 @@ func genSeqCase(t *rapid.T) *SeqCase {
 		RollEvery:  rapid.SampledFrom([]int{0, 2, 3, 5, 16, 64}).Draw(t, "rollevery"),
 		YieldEvery: rapid.SampledFrom([]int{0, 1, 2, 7, 64, 1000}).Draw(t, "yieldevery"),
 		Procs:      rapid.SampledFrom([]int{2, 4, 16}).Draw(t, "procs"),
+		Random:     rapid.IntRange(0, 2).Draw(t, "randomseq") == 1,
 	}
 	hi := n(160_000, 400_000)
 	if c07Race && !thorough() {
@@ -454,7 +475,7 @@ func selfTestChecker() error {
 	return nil
 }
 
-const ruleC07 = "concurrent: rapid draws a plan (start value biased to 0,1,65534,65535; 2-16 goroutines; 70k-400k operations so that the value wraps 1-6 times; RollOverCount read mix; Gosched pattern; GOMAXPROCS 2/4/16); every operation is recorded with invocation/response stamps from one atomic counter and the complete history is decided by an exact linearizability checker for the counter specification (greedy with exchange argument, self-tested on hand-made illegal histories), plus multiset-of-values check; half of the shards run under the Go race detector. wrapburst: plans that put 2-16 goroutines x 2-24 calls (Next alternating with RollOverCount) right around the 65535->0 wrap, each repeated for 600 (thorough 3000) trials on fresh sequencers, every trial's history decided by the same checker. sequential: fixed sequencers stepped through two wraps from boundary/drawn starts (thorough: all 65536 starts), RollOverCount = zeros issued after every call, and on a second sequencer read only once at the end; NewRandomSequencer first value < 2^15, every thousandth one stepped through two wraps. viapacketizer: a fixed sequencer (start biased to the wrap) driven by a Packetizer through 1-12 Packetize/GeneratePadding calls of 1-8 packets: consecutive numbers on the packets, RollOverCount = zeros handed out after every call. packetizerconcurrent: a Packetizer and 1-8 goroutines draw 50-400 values each from one fixed sequencer at the same time (60 trials per plan, 10 under the race detector): every value unique, consecutive from the start, RollOverCount = zeros. randomconcurrent: 2-16 goroutines make the very first 1-100 calls each on one fresh random sequencer together (300 trials per plan, 40 under the race detector): values handed out are min..min+N-1 without duplicate or gap, increasing per goroutine, min < 2^15, RollOverCount 0. Non-trivial = history with overlapping operations of different goroutines and >=1 wrap, or a sweep that wraps; distinct = FNV-64 of the plan"
+const ruleC07 = "concurrent: rapid draws a plan (start value biased to 0,1,65534,65535; 2-16 goroutines; 70k-400k operations so that the value wraps 1-6 times; RollOverCount read mix; Gosched pattern; GOMAXPROCS 2/4/16; one plan in three takes its sequencer from NewRandomSequencer and steps it with one goroutine up to the plan's start value first, here and in wrapburst); every operation is recorded with invocation/response stamps from one atomic counter and the complete history is decided by an exact linearizability checker for the counter specification (greedy with exchange argument, self-tested on hand-made illegal histories), plus multiset-of-values check; half of the shards run under the Go race detector. wrapburst: plans that put 2-16 goroutines x 2-24 calls (Next alternating with RollOverCount) right around the 65535->0 wrap, each repeated for 600 (thorough 3000) trials on fresh sequencers, every trial's history decided by the same checker. sequential: fixed sequencers stepped through two wraps from boundary/drawn starts (thorough: all 65536 starts), RollOverCount = zeros issued after every call, and on a second sequencer read only once at the end; NewRandomSequencer first value < 2^15, every thousandth one stepped through two wraps. viapacketizer: a fixed sequencer (start biased to the wrap) driven by a Packetizer through 1-12 Packetize/GeneratePadding calls of 1-8 packets: consecutive numbers on the packets, RollOverCount = zeros handed out after every call. packetizerconcurrent: a Packetizer and 1-8 goroutines draw 50-400 values each from one fixed sequencer at the same time (60 trials per plan, 10 under the race detector): every value unique, consecutive from the start, RollOverCount = zeros. randomconcurrent: 2-16 goroutines make the very first 1-100 calls each on one fresh random sequencer together (300 trials per plan, 40 under the race detector): values handed out are min..min+N-1 without duplicate or gap, increasing per goroutine, min < 2^15, RollOverCount 0. Non-trivial = history with overlapping operations of different goroutines and >=1 wrap, or a sweep that wraps; distinct = FNV-64 of the plan"
 
 func TestC07(t *testing.T) {
 	r := begin(t, "C07", "exploration", ruleC07)
